@@ -370,3 +370,6 @@ def replay(pid: str, body: dict) -> int:
     import replays
 
     return replays.replay(pid, body)
+
+
+import checks_b  # noqa: E402,F401  (registers C06..C10)
